@@ -18,7 +18,8 @@ META = dict(
                "per-individual attachment of any point-wise nll independent of masked y, masked model values and padding; counts = numbers of "
                "weight-1 cells; model tensor exactly 0 at weight-0 visits; noise estimates use observed entries only: FULL theorem for BOTH update "
                "rules (scalar and per feature) — the updated variance is unchanged (or the rule fails identically) when y changes under the mask "
-               "(any atoms, NaN/inf included) and the model tensor changes where y is not observed.  (The former scalar rule summed model^2 without "
+               "(any atoms, NaN/inf included) and the model tensor changes where y is not observed, or when visits of weight 0 with any content are "
+               "appended.  (The former scalar rule summed model^2 without "
                "the mask — finding F3, repaired upstream by 3d244df; the check reports it as a violation with a 2x1x2 witness if it comes back.)",
     level_note="Trusted: Coq kernel (no axioms: every theorem is closed under the global context); the hand-written model is tied to the code "
                "by exact differential execution (not regenerated): torch kernels (broadcasting, sum, masked_fill, index_put, view/expand) are "
@@ -35,7 +36,7 @@ META = dict(
 OBLIGATIONS = [
     "C06_wsum_ignores_masked", "C06_wsum_dim_ignores_masked", "C06_sum_dim_ignores_masked", "C06_padding", "C06_padding_plain",
     "C06_observed_closed", "C06_attach", "C06_attach_padding", "C06_counts", "C06_counts_ignore_values",
-    "C06_model_zero_on_padding", "C06_model_ignores_masked_times", "C06_noise_observed_only", "C06_noise_ingredients_observed_only",
+    "C06_model_zero_on_padding", "C06_model_ignores_masked_times", "C06_noise_observed_only", "C06_noise_ingredients_observed_only", "C06_noise_padding",
 ]
 
 HDR = ("From Coq Require Import List NArith ZArith QArith Bool.\nFrom Leaspy Require Import Base.Atoms Masked.Weighted.\n"
